@@ -109,9 +109,9 @@ GROUP = {
     "inert_ratio_cvx": "image", "inert_ratio_prnc": "image", "inert_ratio_raw": "image",
     "tilt": "image",
 }
-READ_POOL = (["emodulus"] * 7 + ["fl1_max_ctc", "fl2_max_ctc", "fl3_max_ctc"] * 2
-             + ["area_um", "time", "volume"] * 2 + ["ml_class"] * 3
-             + ["plug_s"] * 3 + ["plug_t"] + ["plug_n"] * 2
+READ_POOL = (["emodulus"] * 5 + ["fl1_max_ctc", "fl2_max_ctc", "fl3_max_ctc"] * 2
+             + ["area_um", "time", "volume"] * 2 + ["ml_class"] * 4
+             + ["plug_s"] * 3 + ["plug_t"] * 2 + ["plug_n"] * 3
              + ["deform", "aspect", "area_ratio", "index", "bright_avg", "bright_sd",
                 "bright_bc_avg", "bright_bc_sd", "bright_perc_10", "bright_perc_90",
                 "inert_ratio_cvx", "inert_ratio_prnc", "inert_ratio_raw", "tilt"])
@@ -137,8 +137,8 @@ for _v in KEY_TO_FEATS.values():
 
 # ------------------------------------------------------------------- generator
 
-KEY_POOL = (["med", "T", "visc", "vm", "lut"] * 3 + ["px", "flow", "width", "region"] * 2
-            + ["fr", "uk", "um"] * 2 + CT)
+KEY_CATS = ([["med", "T", "visc", "vm", "lut"]] * 4 + [["px", "px", "px", "flow", "width", "region"]] * 3
+            + [["fr"]] + [["uk", "um"]] * 2 + [CT] * 3)
 
 
 def _vidx(draw, key):
@@ -155,10 +155,11 @@ def _vidx(draw, key):
 @st.composite
 def st_op(draw):
     kind = draw(st.sampled_from(
-        ["set"] * 8 + ["del"] * 3 + ["temp"] * 3 + ["ctemp", "plug", "unplug", "filter"]
+        ["set"] * 9 + ["del"] * 2 + ["temp"] * 4 + ["ctemp", "plug", "plug", "unplug",
+                                                     "filter"]
         + ["read"] * 7 + ["has"] * 2 + ["features"] + ["cread"] * 3 + ["chas"]))
     if kind in ("set", "del"):
-        key = draw(st.sampled_from(KEY_POOL))
+        key = draw(st.sampled_from(draw(st.sampled_from(KEY_CATS))))
         then = None
         if draw(st.integers(0, 9)) < 6:
             then = draw(st.sampled_from(KEY_TO_FEATS[key]))
@@ -166,9 +167,18 @@ def st_op(draw):
             return ["set", key, _vidx(draw, key), then]
         return ["del", key, then]
     if kind in ("temp", "ctemp"):
-        return [kind, draw(st.sampled_from(TEMPS)), draw(st.integers(0, 999))]
-    if kind == "plug":
-        return ["plug", draw(st.integers(0, 1))]
+        name = draw(st.sampled_from(TEMPS))
+        then = None
+        if draw(st.integers(0, 9)) < 6:
+            then = draw(st.sampled_from(KEY_TO_FEATS[name]))
+        return [kind, name, draw(st.integers(0, 999)), then]
+    if kind in ("plug", "unplug"):
+        then = None
+        if draw(st.integers(0, 9)) < 6:
+            then = draw(st.sampled_from(["plug_s", "plug_t", "plug_n"]))
+        if kind == "plug":
+            return ["plug", draw(st.integers(0, 1)), then]
+        return ["unplug", then]
     if kind == "filter":
         return ["filter", draw(st.integers(0, 999))]
     if kind in ("read", "has", "cread", "chas"):
@@ -188,7 +198,7 @@ def st_spec(draw):
          ["ct12", "ct21", "ct13", "ct31"], []])))
     if draw(st.booleans()):
         present.add("region")
-    present -= set(draw(st.lists(st.sampled_from(sorted(KEYS)), max_size=2)))
+    present -= set(draw(st.lists(st.sampled_from(sorted(KEYS)), max_size=1)))
     present |= set(draw(st.lists(st.sampled_from(sorted(KEYS)), max_size=1)))
     cfg = {}
     for k in sorted(present):
@@ -215,8 +225,8 @@ def st_spec(draw):
                                         ["ml_score_bbb"], []]))},
         "plug": draw(st.sampled_from([0, 0, 1, None])),
         "mask": draw(st.integers(0, 999)),
-        "warm": draw(st.lists(st.sampled_from(READ_POOL), max_size=5)),
-        "ops": draw(st.lists(st_op(), min_size=1, max_size=40)),
+        "warm": draw(st.lists(st.sampled_from(READ_POOL), max_size=6)),
+        "ops": draw(st.lists(st_op(), min_size=4, max_size=40)),
     }
 
 
@@ -396,7 +406,8 @@ class Sim:
         self.path = None
         # history model
         self.cached = set()        # successfully read on the long-lived dataset
-        self.dirty = {}            # feat -> set of change labels since the last read
+        self.snap = {}             # feat -> ingredient states at that read
+        self.temp_ver = {nm: 1 for nm in self.temps}
         self.nontrivial = False
         feat_temp.register_temporary_feature("tmp_a")
         if spec["plug"] is not None:
@@ -605,20 +616,52 @@ class Sim:
         return None
 
     # -- history bookkeeping ---------------------------------------------
-    def touch(self, ing, label):
-        for f in KEY_TO_FEATS.get(ing, []):
-            if f in self.cached:
-                self.dirty.setdefault(f, set()).add(label)
+    def ing_state(self, ing):
+        if ing == "region":
+            return self.cfg.get("region", "channel")   # documented default
+        if ing in KEYS:
+            return self.cfg.get(ing)
+        if ing == "plugin":
+            return self.variant
+        return self.temp_ver.get(ing)
+
+    def changes(self, f):
+        """labels of the ingredients of `f` whose state differs from the state at the
+        last read of `f` that agreed with a fresh dataset (net difference)"""
+        snap = self.snap[f]
+        out, removed = set(), False
+        for ing in sorted(ING.get(f, ())):
+            old, new = snap[ing], self.ing_state(ing)
+            if old == new:
+                continue
+            if ing in CT:
+                # is it an element of the crosstalk matrix of the recorded channels?
+                rec_ch = self.has(f"fl{ing[2]}_max") and self.has(f"fl{ing[3]}_max")
+                out.add("crosstalk-of-recorded-channels" if rec_ch
+                        else "crosstalk-with-missing-channel")
+                removed |= new is None
+            elif ing in KEYS:
+                out.add(KEYS[ing][1].replace(" ", "-"))
+                removed |= new is None
+            elif ing == "plugin":
+                out.add("plugin-removed" if new is None else "plugin-replaced"
+                        if old is not None else "plugin-added")
+                removed |= new is None
+            elif ing.startswith("ml_score_"):
+                out.add("score-added" if old is None else "score-replaced")
+            else:
+                out.add("temp-set" if old is None else "temp-replaced")
+        return out, removed
 
     def hist(self, f):
         if f not in self.cached:
-            return "first"
-        lab = sorted(self.dirty.get(f, ()))
+            return "first", False
+        lab, removed = self.changes(f)
         if not lab:
-            return "cached-unchanged"
+            return "cached-unchanged", False
         if len(lab) > 2:
-            return "after-several-changes"
-        return "after:" + "+".join(lab)
+            return "after-several-changes", removed
+        return "after:" + "+".join(sorted(lab)), removed
 
     def mark_read(self, f):
         fs = {f}
@@ -627,13 +670,11 @@ class Sim:
                 fs |= s
         for g in fs:
             self.cached.add(g)
-            self.dirty.pop(g, None)
+            self.snap[g] = {ing: self.ing_state(ing) for ing in ING.get(g, ())}
 
     def stale_class(self, f, avail_now):
         """discriminator for membership checks"""
         if f in self.cached and not avail_now:
-            if GROUP[f] == "plugin" and self.variant is None:
-                return "cached-then-plugin-removed"
             return "cached-then-requirement-removed"
         if f in self.cached:
             return "cached"
@@ -643,6 +684,8 @@ class Sim:
     def run(self):
         rec = self.rec
         rec.cls("fmt:" + self.fmt)
+        for f in self.spec["warm"]:
+            self.op_read(f, child=False)
         for op in self.spec["ops"]:
             k = op[0]
             rec.cls("op:" + k)
@@ -654,16 +697,18 @@ class Sim:
                 self.op_del(op[1])
                 if op[2]:
                     self.op_read(op[2], child=False)
-            elif k == "temp":
-                self.op_temp(op[1], op[2], child=False)
-            elif k == "ctemp":
-                self.op_temp(op[1], op[2], child=True)
+            elif k in ("temp", "ctemp"):
+                self.op_temp(op[1], op[2], child=(k == "ctemp"))
+                if op[3]:
+                    self.op_read(op[3], child=(k == "ctemp"))
             elif k == "plug":
                 self.set_plugins(op[1])
-                self.touch("plugin", "plugin-replaced")
+                if op[2]:
+                    self.op_read(op[2], child=False)
             elif k == "unplug":
                 self.set_plugins(None)
-                self.touch("plugin", "plugin-removed")
+                if op[1]:
+                    self.op_read(op[1], child=False)
             elif k == "filter":
                 self.mask = filter_mask(op[1], self.n)
                 self.ds.filter.manual[:] = self.mask
@@ -684,11 +729,8 @@ class Sim:
     def op_set(self, key, vidx):
         sec, name, vals = KEYS[key]
         val = vals[vidx % len(vals)]
-        old = self.cfg.get(key)
         self.ds.config[sec][name] = val
         self.cfg[key] = val
-        if old != val:
-            self.touch(key, "set:" + name.replace(" ", "-"))
 
     def op_del(self, key):
         sec, name, _ = KEYS[key]
@@ -697,11 +739,9 @@ class Sim:
             return
         del self.ds.config[sec][name]
         del self.cfg[key]
-        self.touch(key, "del:" + name.replace(" ", "-"))
 
     def op_temp(self, name, seed, child):
         full = temp_data(name, seed, self.n)
-        new_name = name not in self.temps
         if child:
             self.child.rejuvenate()
             sub = full[self.mask]
@@ -710,19 +750,24 @@ class Sim:
             full[self.mask] = sub
         else:
             feat_temp.set_temporary_feature(self.ds, name, full.copy())
+        old = self.temps.get(name)
+        if old is None or not np.array_equal(old, full, equal_nan=True):
+            self.temp_ver[name] = self.temp_ver.get(name, 0) + 1
         self.temps[name] = full
-        if name.startswith("ml_score_"):
-            self.touch(name, "score-added" if new_name else "score-replaced")
-        else:
-            self.touch(name, "temp-set" if new_name else "temp-replaced")
+
+    def sigtag(self, f):
+        """feature group (+ documented emodulus scenario) for signatures"""
+        grp = GROUP[f]
+        if f != "emodulus":
+            return grp
+        sc = self.emod_scenario()
+        return "emodulus/" + ("invalid-config" if sc.startswith("invalid") else sc)
 
     def op_read(self, f, child):
         rec = self.rec
         grp = GROUP[f]
-        where = "child" if child else "ds"
-        hist = self.hist(f)
-        sc = self.emod_scenario() if f == "emodulus" else None
-        tag = f"{grp}/{sc}" if sc else grp
+        hist, removed = self.hist(f)
+        tag = self.sigtag(f)
         if child:
             self.child.rejuvenate()
             long_ds = self.child
@@ -739,26 +784,36 @@ class Sim:
             self.release(fr)
         av = self.avail(f)
         valid = self.valid(f)
-        if sc:
-            rec.cls("scenario:" + sc)
+        if f == "emodulus":
+            sc = self.emod_scenario()
+            rec.cls("scenario:" + ("C" if sc == "C+temp" else sc))
         if hist.startswith("after"):
             self.nontrivial = True
             rec.cls("reread-after-change:" + grp)
-            if any(x.startswith(("del:", "plugin-removed")) for x in self.dirty[f]):
+            if removed:
                 rec.cls("reread-after-removal")
         if out_f[0] == "ok":
             rec.cls("read-available:" + f)
             if f == "emodulus" and np.isfinite(out_f[1]).any():
                 rec.cls("emodulus-finite-values")
         # (1) long-lived == fresh
-        rec.check(same(out_l, out_f), f"value/{where}/{tag}/{hist}",
-                  lambda: f"{f}: long-lived {where} gives {show(out_l)}, a fresh dataset "
-                          f"with the same state gives {show(out_f)}; cfg={self.cfg} "
-                          f"temps={sorted(self.temps)} plugin={self.variant}")
+        agree = same(out_l, out_f)
+        level = "ds"
+        if child and not agree:
+            # is the parent already wrong, or only the child view?
+            fr2 = self.fresh(False)
+            try:
+                if same(observe(self.ds, f), observe(fr2, f)):
+                    level = "child-only"
+            finally:
+                self.release(fr2)
+        rec.check(agree, f"value/{level}/{tag}/{hist}",
+                  lambda: f"{f}: long-lived {'child' if child else 'dataset'} gives "
+                          f"{show(out_l)}, a fresh dataset with the same state gives "
+                          f"{show(out_f)}; cfg={self.cfg} temps={sorted(self.temps)} "
+                          f"plugin={self.variant}")
         stale = self.stale_class(f, av)
-        rec.check(has_l == has_f, f"contains/{where}/{grp}/{stale}",
-                  lambda: f"'{f}' in long-lived {where} is {has_l}, in a fresh dataset "
-                          f"{has_f}; cfg={self.cfg} plugin={self.variant}")
+        self.check_contains(f, has_l, has_f, stale, child)
         # (2) membership <=> reading succeeds (valid configurations)
         for side, has_x, out_x, st_cls in (("long", has_l, out_l, stale),
                                            ("fresh", has_f, out_f, "fresh")):
@@ -775,9 +830,13 @@ class Sim:
                 ok = not valid
                 if ok:
                     rec.skip("deliberate-error-in-invalid-configuration")
-            rec.check(ok, f"available-vs-read/{side}/{tag}/{st_cls}",
+            sig = (f"available-vs-read/{side}/{st_cls}"
+                   if st_cls == "cached-then-requirement-removed"
+                   else f"available-vs-read/{side}/{tag}/{st_cls}")
+            rec.check(ok, sig,
                       lambda: f"{side}: '{f}' in ds is {has_x} but reading "
-                              f"{show(out_x)}; valid-config={valid} cfg={self.cfg}")
+                              f"{show(out_x)}; valid-config={valid} cfg={self.cfg} "
+                              f"plugin={self.variant}")
         # (3) documentation model of availability (fresh dataset)
         rec.check(has_f == av, f"avail-model/{tag}",
                   lambda: f"'{f}' in fresh dataset is {has_f}, documentation model says "
@@ -792,21 +851,30 @@ class Sim:
                 rec.cls("direct:" + grp)
                 exp = np.asarray(exp)
                 if child:
-                    exp = exp[self.mask]
+                    # a child enumerates its own events
+                    exp = (np.arange(1, int(self.mask.sum()) + 1) if f == "index"
+                           else exp[self.mask])
                 got = out_f[1]
                 ok = exp.shape == got.shape and np.array_equal(
                     exp.astype(float), got.astype(float), equal_nan=True)
                 rec.check(ok, f"direct/{tag}",
                           lambda: f"{f}: fresh dataset gives {show(out_f)}, documented "
                                   f"recipe gives {show(('ok', exp))}; cfg={self.cfg}")
-        if out_l[0] == "ok":
+        if out_l[0] == "ok" and agree:
             self.mark_read(f)
+
+    def check_contains(self, f, has_l, has_f, stale, child):
+        where = "child" if child else "ds"
+        sig = ("contains/" + stale if stale == "cached-then-requirement-removed"
+               else f"contains/{where}/{GROUP[f]}/{stale}")
+        self.rec.check(has_l == has_f, sig,
+                       lambda: f"'{f}' in long-lived {where} is {has_l}, in a fresh "
+                               f"dataset {has_f}; cfg={self.cfg} plugin={self.variant}")
 
     def op_has(self, f, child):
         if child:
             self.child.rejuvenate()
         long_ds = self.child if child else self.ds
-        where = "child" if child else "ds"
         fr = self.fresh(child)
         try:
             has_l = f in long_ds
@@ -814,12 +882,8 @@ class Sim:
         finally:
             self.release(fr)
         av = self.avail(f)
-        stale = self.stale_class(f, av)
-        grp = GROUP[f]
-        self.rec.check(has_l == has_f, f"contains/{where}/{grp}/{stale}",
-                       lambda: f"'{f}' in long-lived {where} is {has_l}, in a fresh "
-                               f"dataset {has_f}; cfg={self.cfg} plugin={self.variant}")
-        self.rec.check(has_f == av, f"avail-model/{grp}",
+        self.check_contains(f, has_l, has_f, self.stale_class(f, av), child)
+        self.rec.check(has_f == av, f"avail-model/{self.sigtag(f)}",
                        lambda: f"'{f}' in fresh dataset is {has_f}, documentation model "
                                f"says {av}; cfg={self.cfg} data={sorted(self.data)}")
 
@@ -842,7 +906,8 @@ class Sim:
             self.rec.check(True, "features/equal")
         exp = sorted(f for f in GROUP if f not in self.data and f not in self.temps
                      and self.avail(f))
-        got = sorted(f for f in fa if f in GROUP)
+        # (the property lists duplicates: one entry per registered recipe)
+        got = sorted(set(f for f in fa if f in GROUP))
         self.rec.check(exp == got, "features-ancillary-model",
                        lambda: f"features_ancillary of a fresh dataset: {got}, model: "
                                f"{exp}; cfg={self.cfg} data={sorted(self.data)}")
